@@ -9,16 +9,16 @@ CHECKS = {
  "C16": ("model_checking", "TLA+ spec Split.tla: TLC exhaustive (t<=200,w<=40) + Apalache for unbounded integers; trace validation (Trace_C16) of the shares observed from mpi_plain/mpi_vegas/mpi_multi_channel under a thread-based MPI shim and of discard_before/discard_after up to 2^40; engines with odd ranges that publish their stream position (cost per number measured, not asked from the library)",
          "The tiling formulas are proved for unbounded integers (Apalache/Z3) and checked exhaustively for small values (TLC); the implementation is bound to the property-level state machine ShareOK by TLC validating every share the real integrators took (which stream position the first point of each rank came from, how many points, where the generator ended).",
          "TLC, Apalache+Z3, the MPI shim (threads as ranks), position-revealing counter engine", "5/C16"),
- "C09": ("model_checking", "TLA+ spec Select.tla: TLC theorems (unique enabled owner, P(i)=w_i on the full lattice, as-coded pick = owner); trace validation (Trace_C09) of every selection made by hep::discrete_distribution and by hep::multi_channel (channel seen by map and integrand, enabled list) under a scripted engine at 0, 1-ulp, all cumulative boundaries and neighbours; the weights every result records sum to one (McNorm)",
+ "C09": ("model_checking", "TLA+ spec Select.tla: TLC theorems (unique enabled owner, P(i)=w_i on the full lattice, as-coded pick = owner); the ownership laws for unbounded weights by Apalache (Select_apa); trace validation (Trace_C09) of every selection made by hep::discrete_distribution and by hep::multi_channel (channel seen by map and integrand, enabled list) under a scripted engine at 0, 1-ulp, all cumulative boundaries and neighbours; the weights every result records sum to one (McNorm)",
          "Admissible(w,u) is the property; TLC evaluates it on every recorded selection (three numeric types, unnormalised weights, totals up to 100, raw generator extremes) and on full-lattice counts.",
-         "TLC; script_engine -> canonical number j/2^24 exactly (libstdc++ generate_canonical); boundary tolerance of one 2^-24 lattice step", "5/C09"),
+         "TLC; Apalache+Z3; script_engine -> canonical number j/2^24 exactly (libstdc++ generate_canonical); boundary tolerance of one 2^-24 lattice step", "5/C09"),
  "C08": ("model_checking", "TLA+ spec Refine.tla (weights): TLC proves WeightsOK(RefineW) on the bounded rational model; trace validation (Trace_C08) compares multi_channel_refine_weights / checkpoint normalisation with the spec's exact rationals and checks the invariants on random cases and on every iteration of real multi-channel runs",
          "Exact rational oracle in TLA+ for beta in {1,1/2,1/4} (perfect powers, power-of-two data scaling); invariants (probability vector, never re-enabled, floor, unchanged on no information) for arbitrary beta/data/min and along real runs.",
          "TLC; libm pow exact on perfect powers; floor(v*2^20) projection with 2 units tolerance; proportionality for irrational powers not checked beyond invariants", "5/C08"),
  "C07": ("model_checking", "TLA+ spec Refine.tla (grid): TLC proves GridRefineOK(Walk) and the inverse-CDF laws on the bounded rational model; trace validation (Trace_C07) of vegas_refine_pdf / vegas_icdf / default grids / real runs: exact share law for alpha=0 dyadic cases, validity + driver-evaluated shares for general alpha, unchanged grid on no data; the shared MPI leg (Trace_C04) for the grid that mpi_vegas refines on its own",
          "The share law F(new_j) = j/B is evaluated by TLC in integers on every alpha=0 case (grids over k/8, data {0..3}^B); for alpha != 0 the damped importance is evaluated by the driver in long double and TLC checks the reported deviation, validity and no-information clauses on chains of up to 200 refinements and real adaptive runs.",
          "TLC; long double evaluation of ((r-1)/ln r)^alpha in the driver for the general-alpha share clause; floor(x*2^16) projection", "5/C07"),
- "C11": ("model_checking", "TLA+ spec Bins.tla: TLC theorems on BinOf (half-open owner admissible, edges admit the two neighbours, outside/non-finite -> no bin, flat order = mid-point order); trace validation (Trace_C11): single fills on a quarter-bin lattice incl. +-inf/NaN/1e30 for 1-d and 2-d binnings and three scalings, and whole PLAIN/VEGAS/multi-channel iterations with three distributions recomputed fill by fill (the spec branches on edge fills); Layout.tla (flat storage of several distributions: no aliasing, reads own fills); bins of combined iterations = combination of the bins",
+ "C11": ("model_checking", "TLA+ spec Bins.tla: TLC theorems on BinOf (half-open owner admissible, edges admit the two neighbours, outside/non-finite -> no bin, flat order = mid-point order); trace validation (Trace_C11): single fills on a quarter-bin lattice incl. +-inf/NaN/1e30 for 1-d and 2-d binnings and three scalings, and whole PLAIN/VEGAS/multi-channel iterations with three distributions recomputed fill by fill (the spec branches on edge fills); Layout.tla (flat storage of several distributions: no aliasing, reads own fills; for unbounded bin counts by Apalache, Layout_apa); bins of combined iterations = combination of the bins",
          "Every observed fill must land in a bin BinOf admits (or nowhere), every bin must report exactly the sums of the values the spec routed to it times 1/area and the iteration's full call count.",
          "TLC; dyadic parameters/coordinates make the library arithmetic exact; 'separate integration with the indicator function' is represented by recomputing each bin from the recorded fills", "5/C11"),
  "C02": ("model_checking", "TLA+ spec Call.tla (call state machine with accumulator): TLC explores all small iterations (MC_Call); trace validation (Trace_Call) of real PLAIN/VEGAS/multi-channel iterations: one event per draw / map call / integrand entry / exit, the spec recomputes calls, non_zero, finite, sum, sumsq and adjustment data exactly and compares with the reported result",
@@ -51,9 +51,9 @@ CHECKS = {
  "C05": ("model_checking", "TLA+ spec Format.tla (writers / readers of the checkpoint text over token streams, transcribed from the serialize members and stream constructors): TLC proves Read(Write(c)) = c on 369 abstract checkpoints (MC_Format); trace validation (Trace_C05): token shape of every real checkpoint text = shape of the spec's writer for the same structure, stream good, all fields and generators bit-equal after reading back",
          "Structure (field order, name line, counts, conditional first grid / weights, separators) is decided by the specification; bit fidelity of the numeric fields is checked by the driver over value classes for three numeric types and 9 engines.",
          "TLC; decimal conversion (max_digits10 + operator>>) is checked, not derived; engine operator==", "5/C05"),
- "C18": ("fault_enumeration", "TLA+ spec FileSys.tla (file contents under open / write / rename with a kill possible in every state and inside every write): TLC shows tmp+rename keeps FileCompleteOrAbsent and the direct protocol violates it (MC_FileSys); the real system-call log of the built-in callback (LD_PRELOAD interposer) is validated against the spec (Trace_C18) and drives the enumeration of kill points: every call x before/after x byte prefixes, each followed by classification of the file on disk against reference texts and a resumed run",
+ "C18": ("fault_enumeration", "TLA+ spec FileSys.tla (file contents under open / write / rename with a kill possible in every state and inside every write): TLC shows tmp+rename keeps FileCompleteOrAbsent and the direct protocol violates it (MC_FileSys); an inductive invariant of the protocol for any number of iterations and any text sizes discharged by Apalache (FileSys_apa); the real system-call log of the built-in callback (LD_PRELOAD interposer) is validated against the spec (Trace_C18) and drives the enumeration of kill points: every call x before/after x byte prefixes, each followed by classification of the file on disk against reference texts and a resumed run",
          "Crash points are enumerated from the observed protocol, not sampled; each killed execution is one trace TLC validates: the spec predicts what must be on disk and requires the resumed run to end byte-identically to the uninterrupted one.",
-         "TLC; LD_PRELOAD interposer (process kill via _exit; power loss / fsync out of scope; close() inside libc is not observed); reference texts from an uninterrupted run", "5/C18"),
+         "TLC; Apalache+Z3; LD_PRELOAD interposer (process kill via _exit; power loss / fsync out of scope; close() inside libc is not observed); reference texts from an uninterrupted run", "5/C18"),
  "C04": ("model_checking", "TLA+ spec Mpi.tla (ranks with program counters, two collectives per iteration with arrival sets, split from Split.tla): TLC explores all interleavings for P <= 3 and plans incl. N = 0, N < P, remainders (invariants Disjoint, Covers, SamePosition, ReducedIsSerial; deadlock check on; the 'skip second collective' alternative deadlocks); trace validation (Trace_C04) of mpi_plain / mpi_vegas / mpi_multi_channel under a thread-based MPI shim for world sizes 1..33 against the serial run: stream position of every evaluated point, collective signatures, counters, stored generator, sums, stop decisions, returned checkpoints; Layout.tla for the packed reduction buffer",
          "Which rank evaluates which stream position is decided by Split.tla inside the per-rank trace machines; equality with the serial run is exact where the inputs are exact (integer integrand values, dyadic weights) and 'up to reassociation' (1 unit of 2^-6) otherwise.",
          "TLC; MPI shim (seeded arrival and reduction orders); real Open MPI: np = 2 (quick), np in {1,2,3,5} (thorough)", "5/C04"),
@@ -98,7 +98,7 @@ def main():
         "engines": [
             {"name": "tlc", "path": "/verif/spec", "serves_properties": [c["property_id"] for c in checks],
              "kind_free_text": "explicit TLA+ specification checked with TLC; trace validation / replay binds it to the C++ headers"},
-            {"name": "apalache", "path": "/verif/spec/Split_apa.tla, /verif/spec/Bins_apa.tla", "serves_properties": ["C16", "C11"],
+            {"name": "apalache", "path": "/verif/spec/Split_apa.tla, /verif/spec/Bins_apa.tla, /verif/spec/Layout_apa.tla, /verif/spec/Select_apa.tla, /verif/spec/FileSys_apa.tla", "serves_properties": ["C16", "C11", "C09", "C18"],
              "kind_free_text": "SMT-based check over unbounded integers"},
             {"name": "harness", "path": "/verif/harness", "serves_properties": [c["property_id"] for c in checks],
              "kind_free_text": "C++ drivers, scripted engines, MPI shim, syscall interposer"},
